@@ -183,6 +183,7 @@ func ParseTagMax(m uint64) (peer, seq int, ok bool) {
 // when a Gate is set - holds tagged serving calls inside the gate so that the
 // number of concurrently running RPC handlers can be observed from outside.
 type RecCM struct {
+	partialAsked, partialShort int
 	*chain.Manager
 
 	Gate *Gate
@@ -267,6 +268,30 @@ func (c *RecCM) Block(id types.BlockID) (types.Block, bool) {
 		}
 	}
 	return c.Manager.Block(id)
+}
+
+// TransactionsForPartialBlock implements syncer.ChainManager; calls that could
+// not supply every transaction asked for are counted (the syncer then asks
+// the announcing peer with SendTransactions).
+func (c *RecCM) TransactionsForPartialBlock(missing []types.Hash256) ([]types.Transaction, []types.V2Transaction) {
+	txns, v2txns := c.Manager.TransactionsForPartialBlock(missing)
+	if len(missing) > 0 {
+		c.mu.Lock()
+		c.partialAsked++
+		if len(txns)+len(v2txns) < len(missing) {
+			c.partialShort++
+		}
+		c.mu.Unlock()
+	}
+	return txns, v2txns
+}
+
+// PartialBlocks returns how many incomplete outlines the node tried to complete
+// from its pool, and how many of those the pool could not complete.
+func (c *RecCM) PartialBlocks() (asked, short int) {
+	c.mu.Lock()
+	defer c.mu.Unlock()
+	return c.partialAsked, c.partialShort
 }
 
 // Headers implements syncer.ChainManager.
